@@ -29,13 +29,14 @@ if out == "seeded":
     out = "/tmp/seval_src_%s" % pid
     shutil.rmtree(out, ignore_errors=True)
     os.makedirs(out)
-    for d in sorted(glob.glob(os.path.join(V, "seeded", pid + "-m*"))):
-        k = os.path.basename(d).split("-")[1]
+    for d in sorted(glob.glob(os.path.join(V, "seeded", pid + "-*m[0-9]"))):
+        k = os.path.basename(d).split("-", 1)[1]
         shutil.copy(os.path.join(d, "patch.diff"), os.path.join(out, k + ".diff"))
         shutil.copy(os.path.join(d, "demo.py"), os.path.join(out, k + "_demo.py"))
         shutil.copy(os.path.join(d, "meta.json"), os.path.join(out, k + "_meta.json"))
 
-for diff in sorted(glob.glob(os.path.join(out, "m*.diff"))):
+TAG = os.environ.get("SEED_TAG", "")        # e.g. r2 for a second red-team round: stored as <ID>-r2m<k>
+for diff in sorted(glob.glob(os.path.join(out, "*m[0-9].diff"))):
     k = os.path.basename(diff)[:-5]
     demo = os.path.join(out, k + "_demo.py")
     if not os.path.exists(demo):
@@ -65,7 +66,7 @@ for diff in sorted(glob.glob(os.path.join(out, "m*.diff"))):
             rp = viol[0].split("replay=")[1].split()[0]
             results[c]["replay_excerpt"] = open(rp).read()[:1500] if os.path.exists(rp) else ""
     sh("git -C /repo worktree remove --force %s" % w)
-    d = os.path.join(V, "seeded", "%s-%s" % (pid, k))
+    d = os.path.join(V, "seeded", "%s-%s%s" % (pid, TAG, k))
     os.makedirs(d, exist_ok=True)
     shutil.copy(diff, os.path.join(d, "patch.diff"))
     shutil.copy(demo, os.path.join(d, "demo.py"))
